@@ -367,6 +367,39 @@ def linform(t, angle=True):
     return LinForm({t.id: (t, Fraction(1))})
 
 
+_UGLY = 10 ** 6
+_kref = {}
+
+
+def _tame(f):
+    """A coefficient with a huge numerator or denominator (a product of float literals, e.g. a unit conversion factor)
+    would make the atomizer express cos(K x) as a K-fold multiple angle.  Such a coefficient is moved into the base:
+    K x = r * (k x) with k the first such coefficient seen for x and r a small rational (so that doubled and halved
+    angles still share their base)."""
+    if all(b.op == "const" or (abs(c.numerator) <= _UGLY and c.denominator <= _UGLY) for b, c in f.items.values()):
+        return f
+    items = {}
+    for i, (b, c) in f.items.items():
+        if b.op == "const" or (abs(c.numerator) <= _UGLY and c.denominator <= _UGLY):
+            nb, r = b, c
+        else:
+            refs = _kref.setdefault(b.id, [])
+            for k in refs:
+                r = c / k
+                if abs(r.numerator) <= 64 and r.denominator <= 64:
+                    break
+            else:
+                k = abs(c)
+                refs.append(k)
+                r = c / k
+            nb = _mk("add", (b,), (Fraction(0), (k,)))
+        if nb.id in items:
+            items[nb.id] = (nb, items[nb.id][1] + r)
+        else:
+            items[nb.id] = (nb, r)
+    return LinForm(items, f.pim, f.const)
+
+
 def _form_atom(op, kind, form, sort="Real"):
     return _mk(op, form.bases(), (kind,) + form.key(), sort)
 
@@ -380,7 +413,7 @@ def form_of_atom(t):
 
 def trig(kind, t):
     """cos / sin of a real term"""
-    f = linform(t, angle=True)
+    f = _tame(linform(t, angle=True))
     if not f.items:
         q = (f.pim * 2)
         if q.denominator == 1:
@@ -400,7 +433,7 @@ def trig(kind, t):
 
 def hyp(kind, t):
     """cosh / sinh of a real term"""
-    f = linform(t, angle=False)
+    f = _tame(linform(t, angle=False))
     if f.is_zero():
         return ONE if kind == "cosh" else ZERO
     if f.items:
